@@ -29,13 +29,14 @@ MANIFEST = dict(
     '(C01.engine_correct, induction with a store invariant; kind-independent), which on the reals is the mathematical value '
     '(C01.engine_value); the id table built from the formula names all its parameters/variables (C01.prepare_names); the position handed '
     'to the engine is the position of that name\'s value (C01.index_lookup_*); sharing sub-formulas and evaluating formulas side by side '
-    'change no value (C01.share_invariant, C01.side_by_side, DAG homomorphisms). Tie: differential correspondence on generated DAGs: the '
+    'change no value (C01.share_invariant, C01.side_by_side, DAG homomorphisms); where the pure-Python evaluator returns a number it is the '
+    'mathematical value (C01.pyEval_agrees, relational proof covering its short-circuit And/Or and 0**c special case). Tie: differential correspondence on generated DAGs: the '
     'REAL signature and REAL vectors recorded at the calculator boundary are loaded and run by the model; real engine values, real '
     'get_value() and BIOGEME.simulate are compared with the model semantics and with an independent math oracle.',
     design='DESIGN.md §5 C01',
     technique='Lean 4 compiler-correctness proof over an executable DAG/engine model + differential correspondence with the real engine and Python evaluator',
     note='Partial: the C++ engine (cythonbiogeme) arithmetic is modelled from its source, not verified; Float vs real rounding by tolerance 1e-9; '
-    'the Python-evaluator agreement (pyEval) is validated by correspondence, not proved; engine defects outside /repo are listed known findings '
+    'engine defects outside /repo are listed known findings '
     '(shared ConditionalSum condition node, BelongsTo members parsed as C float).',
 )
 TRUSTED = [
